@@ -261,6 +261,46 @@ func RunHist(args []string) int {
 				plans[t] = append(plans[t], u.randCall(rng))
 			}
 		}
+		if *threads > 1 && i%5 == 4 {
+			// multi-step operations must be atomic too: the client is put on many channels (with one other nick
+			// on some), then Wipe / DelNick / ReNick race with observers of the whole state
+			nch := 12 + rng.Intn(8)
+			var setup []Call
+			setup = append(setup, Call{"NewNick", []string{"b"}})
+			for k := 0; k < nch; k++ {
+				cn := fmt.Sprintf("#w%d", k)
+				setup = append(setup, Call{"NewChannel", []string{cn}}, Call{"Associate", []string{cn, "a"}})
+				if k%3 == 0 {
+					setup = append(setup, Call{"Associate", []string{cn, "b"}})
+				}
+			}
+			for _, c := range setup {
+				h.add(histEvent{Ev: "call", T: 0, Op: c.Op, Args: argsJSON(c)})
+				res, _ := Apply(st, c)
+				h.add(histEvent{Ev: "ret", T: 0, Res: resJSON(res)})
+				opCount[c.Op]++
+				calls++
+			}
+			big := []Call{{"Wipe", nil}, {"DelNick", []string{"b"}}, {"ReNick", []string{"a", "c"}}, {"ReNick", []string{"b", "c"}}}[rng.Intn(4)]
+			obs := func() []Call {
+				var l []Call
+				for k, m := 0, 3+rng.Intn(4); k < m; k++ {
+					switch rng.Intn(4) {
+					case 0:
+						l = append(l, Call{"Me", nil})
+					case 1:
+						l = append(l, Call{"GetNick", []string{"b"}})
+					case 2:
+						l = append(l, Call{"GetChannel", []string{fmt.Sprintf("#w%d", rng.Intn(nch))}})
+					default:
+						l = append(l, Call{"IsOn", []string{fmt.Sprintf("#w%d", rng.Intn(nch)), []string{"a", "b", "c"}[rng.Intn(3)]}})
+					}
+				}
+				return l
+			}
+			plans = [][]Call{{big}, obs(), obs()}
+			nt = 3
+		}
 		var wg sync.WaitGroup
 		seeds := make([]int64, nt)
 		for t := range seeds {
